@@ -21,6 +21,7 @@ HARNESSES = [
     {"fn": "h_src_args", "cases": ["w%d" % i for i in range(8)] + ["wc", "creator", "ascii"], "quick_cases": ["w0", "w7", "wc", "creator"],
      "timeout": {"quick": 90, "thorough": 300}},
     {"fn": "h_osrc", "cases": ["comp", "kind", "absent"], "timeout": {"quick": 90, "thorough": 300}},
+    {"fn": "h_osrc_seq", "cases": ["BC-BD", "BD-BC", "BD-BD"], "timeout": {"quick": 90, "thorough": 300}},
     {"fn": "h_m2c00", "cases": ["route", "empty"], "timeout": {"quick": 90, "thorough": 300}},
     {"fn": "h_contain", "cases": ["ud:%d" % b for b in (2, 3, 4, 5, 6, 7)] + ["src:%d" % b for b in (2, 3, 4, 5, 6, 8)] + ["callout:%d" % b for b in (2, 4, 6)],
      "quick_cases": ["ud:4", "ud:6", "ud:7", "src:2", "src:4", "callout:4"], "timeout": {"quick": 120, "thorough": 400}},
@@ -366,3 +367,27 @@ def h_disabled() -> bool:
              "Description" not in doc["Primary SRC"]["Callout Section"]["Callouts"][0],
              hd.parse(doc["User Data 0"]["Data"]) == b"\x01\x02\x03", hd.parse(doc["Extended User Data"]["Data"]) == b"\x06\x07"]
     return verdict(sym_all(conds), obs={"requested": e.imp.requested})
+
+
+def h_osrc_seq() -> bool:
+    """
+    post: _
+    """
+    # two BMC-created SRCs in one process: the sub-parser is chosen per reference code, not per first use
+    c = sym_str("c", 2, "E5A1")
+    kinds = CASE.split("-")
+    refs = [mkstr([ord(x) for x in k + "8D"] + [ord(c[0]), ord(c[1])] + [ord(x) for x in "10"] + [32] * 24) for k in kinds]
+    bsrc_present = bool(sym_bool("bsrc_installed"))
+    name = [111, lower_cp(ord(c[0])), lower_cp(ord(c[1])), 48, 48]
+    try:
+        with env(present=lambda n: bsrc_present or bool(sym_not(str_eq(n, "srcparsers.bsrc.bsrc")))) as e:
+            vals = [e.fj.loads(osrc.parseSRCToJson(r, "1", "2", "3", "4", "5", "6", "7", "8")) for r in refs]
+    except Exception as ex:
+        return verdict(False, obs={"exception": repr(ex)})
+    conds = []
+    for k, v in zip(kinds, vals):
+        if k == "BC":
+            conds.append((v is not None and v.get("Plugin") == "srcparsers.bsrc.bsrc") if bsrc_present else v is None)
+        else:
+            conds.append(v is not None and str_is(v.get("Plugin"), [ord(x) for x in "srcparsers."] + name + [46] + name))
+    return verdict(sym_all(conds), obs={"requested": e.imp.requested, "vals": vals})
